@@ -554,9 +554,11 @@ func (f *Formatter) renderOpenTag(n *html.Node) string {
 	for _, attr := range n.Attr {
 		buf.WriteString(" ")
 		buf.WriteString(attr.Key)
-		if attr.Val != "" {
+		// (the emptiness test is on the formatted value, so that a blank value
+		// takes the same form on every pass)
+		if val := helpers.FormatAttr(attr.Val); val != "" {
 			buf.WriteString("=\"")
-			buf.WriteString(escapeAttr(helpers.FormatAttr(attr.Val)))
+			buf.WriteString(escapeAttr(val))
 			buf.WriteString("\"")
 		}
 	}
